@@ -27,6 +27,19 @@ const TOKENS: [&str; 33] = [
     "<<:", "---", "...", "\u{feff}", "é", "&a", "*a", "- ",
 ];
 
+/// a reader that delivers the first `k` bytes (in pieces of `chunk`) and then reports an error on every call
+struct FailAfter { data: Vec<u8>, pos: usize, k: usize, chunk: usize }
+impl Read for FailAfter {
+    fn read(&mut self, buf: &mut [u8]) -> std::io::Result<usize> {
+        if buf.is_empty() { return Ok(0); }
+        if self.pos >= self.k { return Err(std::io::Error::new(std::io::ErrorKind::Other, "injected")); }
+        let n = buf.len().min(self.chunk).min(self.k - self.pos);
+        buf[..n].copy_from_slice(&self.data[self.pos..self.pos + n]);
+        self.pos += n;
+        Ok(n)
+    }
+}
+
 struct OneByte<R: Read>(R);
 impl<R: Read> Read for OneByte<R> {
     fn read(&mut self, buf: &mut [u8]) -> std::io::Result<usize> {
@@ -89,6 +102,27 @@ fn exercise(bytes: &[u8], reader_too: bool) -> String {
                     if let Ok(text) = std::str::from_utf8(bytes) {
                         let r = catch(|| crate::e2e::run_iter(text, ty, cfg).len());
                         if r.is_err() { return tag("iter"); }
+                    }
+                    // a reader that fails / an input cap that bites after k bytes (start, middle, last byte): the call
+                    // must still return (a hang is seen by the worker's wall-clock limit) and the error must render
+                    let n = bytes.len();
+                    let mut ks = vec![0usize, n / 2, n.saturating_sub(1)];
+                    ks.dedup();
+                    for k in ks {
+                        for chunk in [1usize, 4096] {
+                            let rd = FailAfter { data: bytes.to_vec(), pos: 0, k, chunk };
+                            let r = catch(|| serde_saphyr::with_deserializer_from_reader_with_options(rd, opts.clone(), |de| Seed(ty).deserialize(de)).map(|_| ()).map_err(|e| render_all(&e)));
+                            if r.is_err() { return tag("reader_fault"); }
+                        }
+                        if let Some(b) = opts.budget.as_ref() {
+                            let mut o2 = opts.clone();
+                            o2.budget = Some(Budget { max_reader_input_bytes: Some(k), ..b.clone() });
+                            let r = catch(|| serde_saphyr::with_deserializer_from_reader_with_options(std::io::Cursor::new(bytes.to_vec()), o2.clone(), |de| Seed(ty).deserialize(de)).map(|_| ()).map_err(|e| render_all(&e)));
+                            if r.is_err() { return tag("reader_cap"); }
+                            let mut rd = FailAfter { data: bytes.to_vec(), pos: 0, k: n, chunk: 3 };
+                            let r = catch(|| serde_saphyr::read_with_options::<_, serde::de::IgnoredAny>(&mut rd, o2).take(10_000).map(|x| x.map(|_| ()).map_err(|e| render_all(&e))).count());
+                            if r.is_err() { return tag("iter_cap"); }
+                        }
                     }
                 }
             }
@@ -201,6 +235,20 @@ fn generate(a: &Args) -> i32 {
             match rng.below(4) { 0 => { b.remove(p); } 1 => b.insert(p, *rng.pick(b"[]{}:,-&*!|>%'\"#\n \t\xff\xc3")), 2 => b.truncate(p), _ => b[p] = *rng.pick(b"[]{}:,-&*!|>%'\"#\n \t\xff\xe2") }
         }
         inputs.push(b);
+    }
+    // directive lines (`%…`) cut short in every way: clean end, end inside a multi-byte character, invalid bytes, with and
+    // without earlier content (the external scanner reads a NUL-padded end of input as directive text: fix bfd6267)
+    for head in ["", "a: 1\n...\n", "\u{feff}", "# c\n"] {
+        for dir in ["%", "%YAML", "%YAML 1.2", "%TAG ! tag:x,2000:", "%FOO bar", "%é"] {
+            for tail in [&b""[..], b"\xe6", b"\xe6\x97", b"\xf0\x9f\x98", b"\xff", b"\xc3\x28", b" \xe2\x82"] {
+                let mut b = head.as_bytes().to_vec();
+                b.extend_from_slice(dir.as_bytes());
+                b.extend_from_slice(tail);
+                inputs.push(b.clone());
+                b.extend_from_slice(b"\n---\na: 1\n");
+                inputs.push(b);
+            }
+        }
     }
     let deep = deep_inputs();
     let n_short = inputs.len();
